@@ -334,6 +334,62 @@ pub fn check_env(c: &EnvCase, rec: &mut Rec) -> Result<(), String> {
 }
 
 #[derive(Clone, Debug, Serialize, Deserialize)]
+pub struct FlagCase {
+    pub ym: bool,
+    pub clock: u32,
+    pub rate: u32,
+    /// channel with a fixed volume; the two others are put on the envelope (which has run out)
+    pub fixed: u8,
+    pub volume: u8,
+    /// order in which R7 and the three amplitude registers are written
+    pub order: [u8; 4],
+}
+
+/// "Amplitude ... follows the envelope when bit 4 is set": bit 4 of *that channel's* amplitude
+/// register, whatever the others hold and in whatever order mixer and amplitude registers are
+/// written. A channel with a fixed volume (tone and noise gated off: a DC level) next to channels
+/// riding an envelope that has decayed to zero must give the level of that volume.
+pub fn check_env_flag(c: &FlagCase, rec: &mut Rec) -> Result<(), String> {
+    let fixed = (c.fixed % 3) as usize;
+    let vol = (c.volume % 15) + 1;
+    let level = |regs_in_order: &[(u8, u8)]| -> Result<f64, String> {
+        let mut ay = mk(c.ym, 0, c.clock, c.rate);
+        // envelope: one-shot decay, short period, started first and left to run out
+        ay.write_register(11, 4);
+        ay.write_register(12, 0);
+        ay.write_register(13, 0);
+        for (r, v) in regs_in_order {
+            ay.write_register(*r, *v);
+        }
+        let (l, _) = render(&mut ay, 3000)?;
+        Ok(l[2000..].iter().sum::<f64>() / 1000.0)
+    };
+    // reference: only the fixed channel programmed, mixer first
+    let want = level(&[(7, 0x3F), (8 + fixed as u8, vol)])?;
+    // under test: all three amplitude registers and the mixer in the generated order
+    let mut writes: Vec<(u8, u8)> = vec![(7, 0x3F)];
+    for ch in 0..3u8 {
+        writes.push((8 + ch, if ch as usize == fixed { vol } else { 0x10 }));
+    }
+    let mut idx: Vec<usize> = (0..4).collect();
+    for (i, o) in c.order.iter().enumerate() {
+        idx.swap(i, *o as usize % 4);
+    }
+    let ordered: Vec<(u8, u8)> = idx.iter().map(|i| writes[*i]).collect();
+    let got = level(&ordered)?;
+    rec.eval();
+    if want.abs() < 1e-6 || (got - want).abs() > want.abs() * 0.02 {
+        return Err(format!(
+            "channel {} at fixed volume {} with the two others on a run-out envelope, registers written in the order {:?}: DC level {:.5}; the same channel alone gives {:.5} — whether a channel follows the envelope is bit 4 of its own amplitude register",
+            ["A", "B", "C"][fixed], vol, ordered, got, want
+        ));
+    }
+    rec.nontrivial(fnv(format!("{:?}", c).as_bytes()));
+    rec.class(&format!("fixed-channel-{}", ["A", "B", "C"][fixed]));
+    Ok(())
+}
+
+#[derive(Clone, Debug, Serialize, Deserialize)]
 pub struct EnvChangeCase {
     pub ym: bool,
     pub clock: u32,
@@ -736,6 +792,12 @@ pub fn run(run: &mut Run) {
     );
     run.explore("ports-to-sound", t.pick(1_500, 60_000), port_sound_strategy, check_port_sound);
     run.explore(
+        "envelope-flag-per-channel",
+        t.pick(600, 20_000),
+        || (any::<bool>(), clock_s(), rate_s(), 0u8..3, any::<u8>(), proptest::array::uniform4(0u8..4)).prop_map(|(ym, clock, rate, fixed, volume, order)| FlagCase { ym, clock, rate, fixed, volume, order }),
+        check_env_flag,
+    );
+    run.explore(
         "envelope-period-changed-while-running",
         t.pick(600, 20_000),
         || {
@@ -756,12 +818,13 @@ pub fn replay(run: &mut Run, phase: &str, case: &serde_json::Value) -> Result<()
         "ports-read-back" => run.replay_one::<PortCase, _>(phase, case, check_ports),
         "ports-to-sound" => run.replay_one::<PortSoundCase, _>(phase, case, check_port_sound),
         "envelope-period-changed-while-running" => run.replay_one::<EnvChangeCase, _>(phase, case, check_env_change),
+        "envelope-flag-per-channel" => run.replay_one::<FlagCase, _>(phase, case, check_env_flag),
         _ => Err(format!("unknown phase {}", phase)),
     }
 }
 
 pub const LEVEL: &str = "exploration";
-pub const RULE: &str = "generated (chip AY/YM, chip clock 1.0..2.0 MHz, sample rate 8..384 kHz, stereo mode) x register programmes, judged by signal features: tone = level-crossing count with 25 % hysteresis over >= 20 periods against f_clk/(16*TP) (TP = 0 as 1; judged where f <= fs/4; tolerance 2.5 crossings + 0.4 %) and the period measured from the first to the last rising edge (tolerance 2 samples over the run + 0.02 %), with the register write order permuted; noise = transition rate about half of f_clk/(16*NP) and halving when NP doubles; envelope = for each of the 16 shapes the level at 1/4, 1/2, 3/4 of each of the first four ramps of length 256*EP/f_clk must be strictly falling / rising / at minimum / at maximum as the documented pattern says; envelope period lowered while a repeating shape runs (no R13 write): eight ramps of the new length must follow (6..9 full swings of the level in eight ramp lengths); volume = DC level strictly increasing over the 16 volumes; mixer = gated-off sources leave a flat line; panning = left/right levels per the mode table; every sample of arbitrary write/generate interleavings finite and |s| <= 4, and its i8/i16/i32 presentations equal to the clipped full-scale product; through the ports: read-back of the selected register (at most masked to its implemented bits), register numbers modulo 16; ports-to-sound: a history of (select, data) OUTs executed by the emulated CPU (biased to R13, volume/mixer registers and to values already held) with 0..1500 samples pulled from the chip after each write must give sample-for-sample the signal of the same register history written directly to the chip with the machine's clock, rate and stereo mode. non-trivial = a judged tone (distinct (TP, channel)), judged noise pair, judged envelope (distinct (shape, EP)), levels case, random programme with >= 2 volume/envelope writes, port history with register numbers above 15, ports-to-sound history of >= 4 writes with a non-zero sample";
+pub const RULE: &str = "generated (chip AY/YM, chip clock 1.0..2.0 MHz, sample rate 8..384 kHz, stereo mode) x register programmes, judged by signal features: tone = level-crossing count with 25 % hysteresis over >= 20 periods against f_clk/(16*TP) (TP = 0 as 1; judged where f <= fs/4; tolerance 2.5 crossings + 0.4 %) and the period measured from the first to the last rising edge (tolerance 2 samples over the run + 0.02 %), with the register write order permuted; noise = transition rate about half of f_clk/(16*NP) and halving when NP doubles; envelope = for each of the 16 shapes the level at 1/4, 1/2, 3/4 of each of the first four ramps of length 256*EP/f_clk must be strictly falling / rising / at minimum / at maximum as the documented pattern says; a channel at a fixed volume next to two channels on a run-out envelope gives the level of its volume for every write order of R7..R10; envelope period lowered while a repeating shape runs (no R13 write): eight ramps of the new length must follow (6..9 full swings of the level in eight ramp lengths); volume = DC level strictly increasing over the 16 volumes; mixer = gated-off sources leave a flat line; panning = left/right levels per the mode table; every sample of arbitrary write/generate interleavings finite and |s| <= 4, and its i8/i16/i32 presentations equal to the clipped full-scale product; through the ports: read-back of the selected register (at most masked to its implemented bits), register numbers modulo 16; ports-to-sound: a history of (select, data) OUTs executed by the emulated CPU (biased to R13, volume/mixer registers and to values already held) with 0..1500 samples pulled from the chip after each write must give sample-for-sample the signal of the same register history written directly to the chip with the machine's clock, rate and stereo mode. non-trivial = a judged tone (distinct (TP, channel)), judged noise pair, judged envelope (distinct (shape, EP)), levels case, random programme with >= 2 volume/envelope writes, port history with register numbers above 15, ports-to-sound history of >= 4 writes with a non-zero sample";
 pub const ASSUMPTIONS: &[&str] = &[
     "tolerances are stated in the rule; tone pitch is judged only below fs/4 and an envelope only when a ramp spans >= 96 samples and the run fits in 500k samples",
     "panning table is the one in the aym crate's own documentation; volume 0 is silent",
